@@ -474,3 +474,85 @@ Qed.
 
 Lemma names_unique_model : forall ops, NoDup (counter_names (dtrace dinit ops)).
 Proof. intro ops. apply (counter_names_fresh ops dinit). Qed.
+
+(* ---- a name that exists is refused; what is handed out is fresh ----------- *)
+
+(* While somebody uses the invoker (so the Cleaner does not run), a request
+   whose directory name already exists in the root -- held by a live action
+   or left behind by a failed RemoveAll -- is refused with the Mkdir error
+   (Internal); nothing is created, removed, acquired or handed out. *)
+Lemma existing_name_refused_model : forall s k dig f,
+  slot_name (d_slots s) k = None -> 0 < d_users s ->
+  has (fst (dir_name (d_counter s) dig)) (d_root s) = true ->
+  dstep s (DGet k dig f) =
+    (mkD (d_root s) (d_users s) (snd (dir_name (d_counter s) dig)) (d_slots s), DErr 13, 0).
+Proof.
+  intros s k dig f Hsl Hpos Hhas. cbn [dstep]. rewrite Hsl.
+  destruct (dir_name (d_counter s) dig) as [n cnt]. cbn [fst snd] in *.
+  assert (Hz : Nat.eqb (d_users s) 0 = false) by (apply Nat.eqb_neq; lia).
+  rewrite Hz. red_lets_goal. cbn [negb]. red_lets_goal.
+  rewrite Hhas, orb_true_r. unfold rel_clean.
+  assert (Hne : Nat.eqb (S (d_users s)) 1 = false) by (apply Nat.eqb_neq; lia).
+  rewrite Hne. reflexivity.
+Qed.
+
+Lemma name_open_has : forall sl n (r : listing),
+  (forall e, In e sl -> has (snd e) r = true) -> name_open sl n = true -> has n r = true.
+Proof.
+  intros sl n r He Hop. unfold name_open in Hop. apply existsb_exists in Hop.
+  destruct Hop as (e & Hin & Heq). apply String.eqb_eq in Heq. subst n. apply He. exact Hin.
+Qed.
+
+(* In every reachable state: a request for a name held by a live action
+   (same action digest, colliding 16-character prefix) is refused. *)
+Lemma name_in_use_refused_model : forall ops k dig f,
+  let s := drun dinit ops in
+  slot_name (d_slots s) k = None ->
+  name_open (d_slots s) (fst (dir_name (d_counter s) dig)) = true ->
+  dstep s (DGet k dig f) =
+    (mkD (d_root s) (d_users s) (snd (dir_name (d_counter s) dig)) (d_slots s), DErr 13, 0).
+Proof.
+  intros ops k dig f s Hsl Hop.
+  destruct (released_once_model ops) as (Hu & _ & _ & He). fold s in Hu, He.
+  apply existing_name_refused_model; [exact Hsl| |eapply name_open_has; eauto].
+  rewrite Hu. unfold name_open in Hop. destruct (d_slots s); [discriminate Hop | cbn; lia].
+Qed.
+
+(* In every reachable state: a directory that is handed out is held by no
+   other live action, is empty at that moment, and no open directory was
+   touched. *)
+Lemma handed_out_fresh_model : forall ops k dig f s' n c,
+  let s := drun dinit ops in
+  dstep s (DGet k dig f) = (s', DGot n, c) ->
+  name_open (d_slots s) n = false /\ empty_dir_in n (d_root s') = true /\
+  all_open_exist (d_slots s) (d_root s') = true /\ d_slots s' = (k, n) :: d_slots s.
+Proof.
+  intros ops k dig f s' n c s Hs.
+  destruct (drun_refines ops dinit dminit DI_init) as (m & _ & HD). fold s in HD.
+  destruct (dstep_refines _ _ _ _ _ _ HD Hs) as (m' & Hm & HD').
+  unfold dmon_step in Hm. dsimp. cbn [ob_out ob_listing ob_cleans] in Hm.
+  rewrite (DI_open _ _ HD) in Hm.
+  destruct (slot_name (d_slots s) k); [discriminate|].
+  repeat match type of Hm with
+  | (if ?b then _ else _) = _ => destruct b eqn:?; [discriminate|]
+  end.
+  inv_pair Hm.
+  repeat match goal with H : negb _ = false |- _ => apply negb_false_iff in H end.
+  pose proof (DI_open _ _ HD') as Ho'. cbn [dm_open] in Ho'.
+  repeat split; auto.
+Qed.
+
+Lemma drun_snoc : forall ops s o, drun s (ops ++ [o]) = fst (fst (dstep (drun s ops) o)).
+Proof. induction ops as [|x tl IH]; intros s o; cbn [app drun]; [reflexivity | apply IH]. Qed.
+
+(* Close removes the closing action's own directory only: every other open
+   directory still exists afterwards. *)
+Lemma close_keeps_others_model : forall ops k f,
+  let s := drun dinit ops in
+  let s' := fst (fst (dstep s (DClose k f))) in
+  forall e, In e (d_slots s') -> has (snd e) (d_root s') = true.
+Proof.
+  intros ops k f s s'.
+  destruct (released_once_model (ops ++ [DClose k f])) as (_ & _ & _ & He).
+  rewrite drun_snoc in He. exact He.
+Qed.
